@@ -109,18 +109,36 @@ class Model:
                 B.append(LT(bars[e.segk], s.clk[e.uid])); B.append(LT(s.clk[e.uid], bars[e.segk + 1]))
         # locations
         byaddr = {}
+        # bytes accessed with different (address,width) geometries (unions such as future's value / exception storage):
+        # every access touching such a byte is split into byte-sized units that share the parent's clock and enabledness
+        geo = {}
         for e in allev:
             if e.kind in ('R', 'W', 'RMW', 'WAIT'):
+                for i in range(e.width): geo.setdefault(e.addr + i, set()).add((e.addr, e.width))
+        mixed = {b for b, g in geo.items() if len(g) > 1}
+        s.stats['mixed_bytes'] = len(mixed)
+
+        class Unit:
+            pass
+        for e in allev:
+            if e.kind not in ('R', 'W', 'RMW', 'WAIT'): continue
+            if not any((e.addr + i) in mixed for i in range(e.width)):
                 byaddr.setdefault(e.addr, []).append(e)
-        # geometry check: all accesses overlapping a byte must have identical (addr,width)
-        spans = sorted(((e.addr, e.width) for e in allev if e.kind in ('R', 'W', 'RMW', 'WAIT')))
-        prev = None
-        for a, w in spans:
-            if prev is not None:
-                pa, pw = prev
-                if a == pa and w != pw or (a != pa and a < pa + pw):
-                    raise Exception('unsupported: mixed-size accesses at 0x%x/%d vs 0x%x/%d' % (pa, pw, a, w))
-            prev = (a, w)
+                continue
+            for i in range(e.width):
+                u = Unit()
+                u.parent = e; u.uid = '%s_b%d' % (e.uid, i); u.tid = e.tid; u.idx = e.idx; u.kind = e.kind; u.addr = e.addr + i; u.width = 1
+                u.order = e.order; u.succ = e.succ; u.seg = e.seg; u.segk = e.segk; u.lkey = e.lkey; u.key = e.key; u.obj = e.obj; u.site = e.site
+                u.rval = z3.Extract(8 * i + 7, 8 * i, e.rval) if e.rval is not None else None
+                u.wval = None
+                if e.kind in ('W', 'RMW'):
+                    wv = e.wval
+                    u.wval = ((wv >> (8 * i)) & 0xff) if is_c(wv) else z3.Extract(8 * i + 7, 8 * i, wv)
+                u.info = None
+                if e.kind == 'WAIT':
+                    u.info = ((e.info >> (8 * i)) & 0xff) if is_c(e.info) else z3.Extract(8 * i + 7, 8 * i, e.info)
+                s.clk[u.uid] = s.clk[e.uid]; s.en[u.uid] = s.en[e.uid]
+                byaddr.setdefault(u.addr, []).append(u)
         s.byaddr = byaddr
         for addr, evs in byaddr.items():
             ws = [e for e in evs if e.kind in ('W', 'RMW')]
@@ -150,8 +168,11 @@ class Model:
                                if w2 is not w and not s.exclusive(w, w2)]
                     alts.append(z3.And(rfv == i + 1, s.en_w(w), LT(cw, ck), r.rval == s.wval(w), *between))
                 B.append(z3.Implies(s.en[r.uid], z3.Or(*alts)))
-                if r.kind == 'WAIT':
+                if r.kind == 'WAIT' and not hasattr(r, 'parent'):
                     B.append(z3.Implies(s.en[r.uid], r.rval != bv(r.info, r.width * 8)))
+        for e in allev:
+            if e.kind == 'WAIT' and any((e.addr + i) in mixed for i in range(e.width)):
+                B.append(z3.Implies(s.en[e.uid], e.rval != bv(e.info, e.width * 8)))
         for c in sc.assumes:
             B.append(c)
 
